@@ -19,6 +19,14 @@ REPO = "/repo"
 
 # property -> list of (name, file relative to /repo, old, new)
 MUTANTS = {
+    "C18": [
+        ("precipitate-constraint-sign", "src/phreeqcpp/inverse.cpp", "\t\t\tdelta[(size_t)col_phases + (size_t)i] = -1.0;", "\t\t\tdelta[(size_t)col_phases + (size_t)i] = 1.0;"),
+        ("uncertainty-bound-doubled", "src/phreeqcpp/inverse.cpp", "\t\t\tmy_array[count_rows * max_column_count + (size_t)i] = -coef * f;\n\t\t\tsnprintf(token, sizeof(token), \"%s %s\", inv_ptr->elts[j].master->elt->name, \"eps+\");", "\t\t\tmy_array[count_rows * max_column_count + (size_t)i] = -2.0 * coef * f;\n\t\t\tsnprintf(token, sizeof(token), \"%s %s\", inv_ptr->elts[j].master->elt->name, \"eps+\");"),
+        ("phase-stoichiometry", "src/phreeqcpp/inverse.cpp", "\t\t\tmy_array[(size_t)row * max_column_count + (size_t)column] =\n\t\t\t\trxn_ptr->token[j].coef * coef;", "\t\t\tmy_array[(size_t)row * max_column_count + (size_t)column] =\n\t\t\t\trxn_ptr->token[j].coef * coef * (rxn_ptr->token[j].coef > 1.5 ? 0.5 : 1.0);"),
+        ("minimal-never-drops-second", "src/phreeqcpp/inverse.cpp", "\t\tif (solve_with_mask(inv_ptr, minimal_bits) == ERROR)\n\t\t{\n\t\t\tsave_bad(minimal_bits);\n\t\t\t/* put bit back */", "\t\tif (i == 1 || solve_with_mask(inv_ptr, minimal_bits) == ERROR)\n\t\t{\n\t\t\tif (i != 1) save_bad(minimal_bits);\n\t\t\t/* put bit back */"),
+        ("range-min-is-max", "src/phreeqcpp/inverse.cpp", "\t\t\tif (f < 0)\n\t\t\t{\n\t\t\t\tmin_delta[i] = delta2[j];", "\t\t\tif (f > 0)\n\t\t\t{\n\t\t\t\tmin_delta[i] = delta2[j];"),
+        ("adjustment-lower-bound-sign", "src/phreeqcpp/inverse.cpp", "\t\t\tmy_array[count_rows * max_column_count + (size_t)i] = -coef * f;\n\t\t\tmy_array[count_rows * max_column_count + (size_t)column] = -1.0 * f;", "\t\t\tmy_array[count_rows * max_column_count + (size_t)i] = -coef * f * 3;\n\t\t\tmy_array[count_rows * max_column_count + (size_t)column] = -1.0 * f;"),
+    ],
     "C20": [
         ("gouy-chapman-constant", "src/phreeqcpp/model.cpp", "\t\t\t\tresidual[i] = sinh_constant * sqrt(mu_x) * sinh(x[i]->master[0]->s->la * LOG_10) -", "\t\t\t\tresidual[i] = 1.000001 * sinh_constant * sqrt(mu_x) * sinh(x[i]->master[0]->s->la * LOG_10) -"),
         ("ccm-capacitance", "src/phreeqcpp/model.cpp", "\t\t\t\t\tcharge_ptr->Get_capacitance0() * x[i]->master[0]->s->la * 2 * R_KJ_DEG_MOL *", "\t\t\t\t\t1.00001 * charge_ptr->Get_capacitance0() * x[i]->master[0]->s->la * 2 * R_KJ_DEG_MOL *"),
